@@ -17,7 +17,7 @@ RULE = ("stratified + seeded random (configuration, sample) pairs inside the doc
         "beyond, total > N t); distinct = hash of (configuration, sample)")
 REQUIRED = [f"contract:NonnegMean.{t}" for t in nn.TESTS] + ["stratum:len1", "stratum:m_to_0", "stratum:m_to_u",
                                                              "stratum:m_above_u", "stratum:m_below_0",
-                                                             "random_order_false", "stratum:nondyadic_runs", "stratum:long_sample", "stratum:exact_hit_then_zero_then_nondyadic", "stratum:null_mean_reaches_a_nondyadic_u_then_u_run", "configurations_whose_bound_is_not_a_dyadic_rational", "integer_dtype_samples", "object_warmed_up_with_another_N", "object_built_with_another_u",
+                                                             "random_order_false", "stratum:nondyadic_runs", "stratum:long_sample", "stratum:exact_hit_then_zero_then_nondyadic", "stratum:null_mean_reaches_a_nondyadic_u_then_u_run", "stratum:total_passes_N_t_by_an_ulp", "configurations_whose_bound_is_not_a_dyadic_rational", "integer_dtype_samples", "object_warmed_up_with_another_N", "object_built_with_another_u",
             "object_used_on_another_sample_first", "calls_with_boundary_tolerances_passed_by_the_caller",
             "single_precision_samples", "samples_with_negative_zero", "random_order_false_given_as_numpy_bool_or_0",
             "finite_N_given_as_a_numpy_integer"]
@@ -111,6 +111,12 @@ def run_shard(spec, rec):
             y = nn.gen_exact_hit_then_nondyadic(rng, cfg)
             if y and nn.in_domain(cfg, y):
                 run_case({"cfg": cfg, "x": y, "stratum": "exact_hit_then_zero_then_nondyadic"}, rec)
+            continue
+        if i % 50 == 46:
+            cfg = nn.gen_cfg(rng, combo=combo, finite=True)
+            y = nn.gen_exceed_by_ulps(rng, cfg)
+            if y and nn.in_domain(cfg, y):
+                run_case({"cfg": cfg, "x": y, "stratum": "total_passes_N_t_by_an_ulp"}, rec)
             continue
         if i % 50 == 47:
             cfg = nn.gen_cfg(rng, combo=combo, finite=True)
